@@ -92,25 +92,33 @@ pub fn sweep_all() -> Option<u32> {
     bad
 }
 
-/// thorough only: one entry whose value is 2^28 bytes long (five-byte length prefix) through the
-/// real writer and reader; implementation only (a 268 MB list is beyond the executable model, the
-/// theorem C14_entry covers it)
-pub fn big_entry() -> Result<(), String> {
+/// entries whose two length prefixes are both long: a 2^21-byte key (four-byte prefix) with a 2^28-byte
+/// value (five-byte prefix) — nine bytes of prefixes in front of one entry — and, in the thorough tier,
+/// the mirrored combination; through the real writer and reader; implementation only (a 268 MB list is
+/// beyond the executable model, the theorems C14_lengths / C14_entry cover every length)
+pub fn big_entry(thorough: bool) -> Result<(), String> {
+    let combos: &[(usize, usize)] = if thorough { &[(1 << 21, 1 << 28), ((1 << 28) + 3, (1 << 21) + 1)] } else { &[(1 << 21, 1 << 28)] };
+    for &(kl, vl) in combos {
+        big_entry_one(kl, vl)?;
+    }
+    Ok(())
+}
+
+fn big_entry_one(kl: usize, vl: usize) -> Result<(), String> {
     use grenad::{Reader, Writer};
-    let n = 1usize << 28;
-    let val = vec![0xA5u8; n];
+    let key: Vec<u8> = (0..kl).map(|i| (i % 253) as u8).collect();
+    let val: Vec<u8> = (0..vl).map(|i| (i % 251) as u8 ^ 0xA5).collect();
     let mut w = Writer::memory();
-    w.insert(b"k", &val).map_err(|e| e.to_string())?;
-    w.insert(b"l", b"x").map_err(|e| e.to_string())?;
+    w.insert(&key, &val).map_err(|e| e.to_string())?;
+    w.insert([0xffu8, 0xff], b"x").map_err(|e| e.to_string())?;
     let file = w.into_inner().map_err(|e| e.to_string())?;
-    drop(val);
     let mut c = Reader::new(std::io::Cursor::new(file)).map_err(|e| e.to_string())?.into_cursor().map_err(|e| e.to_string())?;
     match c.move_on_next().map_err(|e| e.to_string())? {
-        Some((k, v)) if k == b"k" && v.len() == n && v.iter().all(|b| *b == 0xA5) => {}
-        other => return Err(format!("first entry wrong: {:?}", other.map(|(k, v)| (k.to_vec(), v.len())))),
+        Some((k, v)) if k == &key[..] && v == &val[..] => {}
+        other => return Err(format!("first entry wrong (key {} bytes, value {} bytes inserted): {:?}", kl, vl, other.map(|(k, v)| (k.len(), v.len())))),
     }
     match c.move_on_next().map_err(|e| e.to_string())? {
-        Some((k, v)) if k == b"l" && v == b"x" => Ok(()),
+        Some((k, v)) if k == [0xffu8, 0xff] && v == b"x" => Ok(()),
         other => Err(format!("second entry wrong: {:?}", other.map(|(k, v)| (k.to_vec(), v.len())))),
     }
 }
